@@ -268,6 +268,10 @@ package binaryheap
 //@ func Iterator.NextTo
 //@   requires ItInv(iterator) && f != nil
 //@   modifies iterator.index
+//@   -- the predicate is applied to (Index(), Value()) of the position just reached, nothing else
+//@   ghostvar lastv := zero(iterator.heap.list.elements[0])
+//@   at after Iterator.Value#1: lastv := callresult
+//@   assert backedge 1: logfun(loglen - 1) == f && logarg(loglen - 1, 0, 0) == iterator.index && logarg(loglen - 1, 1, iterator.heap.list.elements[0]) == lastv
 //@   ensures [C08 C17] ItInv(iterator)
 //@   ensures [C08] result ==> old(iterator.index) < iterator.index && iterator.index < N(iterator.heap)
 //@   ensures [C08] !result ==> iterator.index == N(iterator.heap)
@@ -278,6 +282,10 @@ package binaryheap
 //@ func Iterator.PrevTo
 //@   requires ItInv(iterator) && f != nil
 //@   modifies iterator.index
+//@   -- the predicate is applied to (Index(), Value()) of the position just reached, nothing else
+//@   ghostvar lastv := zero(iterator.heap.list.elements[0])
+//@   at after Iterator.Value#1: lastv := callresult
+//@   assert backedge 1: logfun(loglen - 1) == f && logarg(loglen - 1, 0, 0) == iterator.index && logarg(loglen - 1, 1, iterator.heap.list.elements[0]) == lastv
 //@   ensures [C08 C17] ItInv(iterator)
 //@   ensures [C08] result ==> 0 <= iterator.index && iterator.index < old(iterator.index)
 //@   ensures [C08] !result ==> iterator.index == 0 - 1
